@@ -76,6 +76,21 @@ def forward_case(draw, tier="quick"):
         o0 = draw(st.integers(-20, 20)) if draw(st.booleans()) else 0
         offset = (o0, o0)
         forms = {"shift_scalar": False, "offset_scalar": False, "dtype": "complex", "layout": draw(gen.layouts())}
+    if draw(st.integers(0, 7)) == 0:
+        # special relations between the sampling and a shape: the output (or the input) spans exactly one period,
+        # two periods or half a period (alpha * size = 1, 2, 1/2), with the usual freedom in everything else
+        rel = draw(st.sampled_from(["out_1", "out_1", "out_2", "out_half", "in_1", "in_2", "mixed"]))
+        ref = {"out": out_shape, "in": in_shape}
+        if rel == "mixed":
+            alpha = (1.0 / out_shape[0], 1.0 / in_shape[1])
+        else:
+            which, mult = rel.split("_")
+            k = {"1": 1.0, "2": 2.0, "half": 0.5}[mult]
+            alpha = (k / ref[which][0], k / ref[which][1])
+        alpha_arg, akind = alpha, "period:" + rel
+        if draw(st.booleans()):
+            shift, offset = (0.0, 0.0), (0, 0)
+            forms["shift_scalar"] = forms["offset_scalar"] = False
     return {"forms": forms, "f": f, "alpha_arg": list(alpha_arg) if isinstance(alpha_arg, tuple) else alpha_arg,
             "alpha": list(alpha), "akind": akind, "out_shape": list(out_shape), "shape_arg": shape_arg_kind,
             "shift": list(shift), "offset": list(offset), "unitary": draw(st.booleans()),
